@@ -127,6 +127,67 @@ CHECKS["C16"] = dict(
          "are ones where a floating-point arange miscounts.",
     design="4/C16")
 
+CHECKS["C01"] = dict(
+    technique="Hypothesis rule-based state machine over request histories "
+              "and cache settings; differential oracle against a fresh "
+              "never-evicting instance per request with a measured "
+              "discretisation allowance (20*E_k) and higher-order replay "
+              "adjudication; designed histories for every branch guard",
+    text="Every value handed out during a generated history (any of 161 "
+         "keys, helper calls, re-accesses; clean-up period 1..30, memory "
+         "threshold down to half a scalar field) is compared with the value "
+         "of a fresh instance for that single request on non-trivial exact "
+         "spacetimes, so stale, evicted-and-defaulted, aliased, in-place "
+         "modified or wrong-branch values show at O(scale).",
+    design="4/C01")
+CHECKS["C08"] = dict(
+    technique="Hypothesis-generated pointwise geometries (badly scaled, "
+              "strongly non-diagonal SPD metrics, arbitrary symmetric 4x4, "
+              "all scalar/array/dtype/broadcast operand combinations); "
+              "oracles numpy.linalg and algebraic identities with a "
+              "condition-number-scaled round-off rule",
+    text="inverse/determinant closed forms, 3+1 <-> 4D metric consistency "
+         "(both gdet branches), unit normal, raised/lowered pairs, trace-free "
+         "and conformal quantities, populate_4Riemann symmetries, projector "
+         "helpers, Levi-Civita tensors, s_to_st and safe_division are "
+         "checked to round-off on thousands of generated inputs.",
+    design="4/C08")
+CHECKS["C09"] = dict(
+    technique="Hypothesis-generated lapse/shift/metric x perfect-fluid "
+              "states (|v|<1 by construction, six documented input "
+              "combinations, or T supplied directly); oracle independent "
+              "textbook closed forms with the round-off rule; oracle "
+              "self-test (closed forms == projections of textbook T)",
+    text="4-velocity normalisation in both index positions, T_mu_nu = rho "
+         "u_mu u_nu + p h_mu_nu with lowered indices, Eulerian projections, "
+         "traces, conserved densities and alternative derivations agree to "
+         "round-off for generic alpha != 1, beta != 0, |v| > 0.1.",
+    design="4/C09")
+CHECKS["C14"] = dict(
+    technique="Hypothesis-generated input tables (shuffled steps from exact "
+              "spacetimes, any temporal key, scalar/tensor columns), vars / "
+              "custom functions / estimates and random splits into successive "
+              "over_time calls; oracle: fresh per-step AurelCore recomputation "
+              "(bit-for-bit), own numpy estimators, argument digests",
+    text="Per-step independence, estimator columns, row ordering with all "
+         "columns permuted together, input preservation and split == one-call "
+         "are checked on tables whose steps all differ. One recorded finding "
+         "(dtconserved ragged tuple) is reported as KNOWN-FINDING.",
+    design="4/C14")
+CHECKS["C18"] = dict(
+    technique="Hypothesis-generated simulation directories and call "
+              "histories (st.lists of operations against a model), name / "
+              "dataset-key / .par grammars with round-trip oracles, set "
+              "semantics for merged iteration ranges, incremental-vs-fresh "
+              "differential",
+    text="iterations()/read_iterations()/get_content() results equal "
+         "generator ground truth, the catalogue files parse back to the "
+         "in-memory structures, repeated and incremental calls equal a fresh "
+         "scan, 'overall' denotes exactly the union of per-restart iteration "
+         "sets, names with format words are handled, key/file-name parsing "
+         "inverts the naming scheme, .par values have the documented types.",
+    design="4/C18")
+
 NOT_YET = "check not built yet in this session (see DESIGN.md section 4)"
 
 
